@@ -167,11 +167,17 @@ class Check:
         return 0, 0, []
 
     def replay(self, payload):
-        raise NotImplementedError
+        """default replay: every choice of a run derives from one PRNG seeded with '<id>-<seed>', so re-running the
+        correspondence with the recorded seed and tier reproduces the recorded case (and reports it again if it still fails)"""
+        self.seed = int(payload.get("seed", self.seed))
+        self.tier = payload.get("tier", self.tier)
+        self.rng = random.Random("%s-%d" % (self.pid, self.seed))
+        self.correspondence()
 
     # -- main ----------------------------------------------------------------------------------
     def run(self, replay_file=None):
         t0 = time.time()
+        B.import_rockit()      # rockit comes from VERIF_REPO (default /repo), never from an installed copy
         proof_ok = True
         proof_log = []
         # 1. regenerate tables
